@@ -109,6 +109,11 @@ def run1 (f : Cell Rat → Trap (Cell Rat)) (exact : Bool) (a : Opd) : Sx :=
   let arr := a.cells.map f
   outT arr.shape (cellSx exact) (collect arr.toList)
 
+/-- fast paths: `tripped` = the first attempt `func(values)` trips on SOME element (masked or not) -/
+def runFast (prim : Rat → Trap Rat) (f : Bool → Cell Rat → Trap (Cell Rat)) (exact : Bool) (a : Opd) : Sx :=
+  let tripped := a.cells.toList.any (trips prim)
+  run1 (f tripped) exact a
+
 def run2 (f : Cell Rat → Cell Rat → Trap (Cell Rat)) (exact : Bool) (a b : Opd) : Sx :=
   match Arr.map2 f a.cells b.cells with
   | some arr => outT arr.shape (cellSx exact) (collect arr.toList)
@@ -168,27 +173,35 @@ def handle : List Sx → Sx
     | _, _ => err "operand"
   | [.atom "recip", .list [nz], .list [a]] =>
     match bool? nz, parseOpd a with
-    | some nz, some a => run1 (reciprocal nz) true a
+    | some nz, some a =>
+      if nz then runFast (pdiv 1) reciprocalFast true a else run1 (reciprocal false) true a
     | _, _ => err "operand"
   | [.atom "sqrt", .list [ck], .list [a]] =>
     match bool? ck, parseOpd a with
-    | some ck, some a => run1 (sqrt fns ck) false a
+    | some ck, some a =>
+      if ck then run1 (sqrt fns true) false a else runFast (psqrt fns) (sqrtFast fns) false a
     | _, _ => err "operand"
   | [.atom "log", .list [ck], .list [a]] =>
     match bool? ck, parseOpd a with
-    | some ck, some a => run1 (log fns ck) false a
+    | some ck, some a =>
+      if ck then run1 (log fns true) false a else runFast (plog fns) (logFast fns) false a
     | _, _ => err "operand"
   | [.atom "exp", .list [ck], .list [a]] =>
     match bool? ck, parseOpd a with
-    | some ck, some a => run1 (exp fns ck) false a
+    | some ck, some a =>
+      if ck then run1 (exp fns true) false a else runFast (pexp fns) (expFast fns) false a
     | _, _ => err "operand"
   | [.atom "arcsin", .list [ck], .list [a]] =>
     match bool? ck, parseOpd a with
-    | some ck, some a => run1 (arcsin fns false ck) false a
+    | some ck, some a =>
+      if ck then run1 (arcsin fns false true) false a
+      else runFast (pasin fns) (arcsinFast fns false) false a
     | _, _ => err "operand"
   | [.atom "arccos", .list [ck], .list [a]] =>
     match bool? ck, parseOpd a with
-    | some ck, some a => run1 (arcsin fns true ck) false a
+    | some ck, some a =>
+      if ck then run1 (arcsin fns true true) false a
+      else runFast (pacos fns) (arcsinFast fns true) false a
     | _, _ => err "operand"
   | [.atom "total1", .list [], .list [a]] =>
     match parseOpd a with
